@@ -17,7 +17,7 @@ OPS = "rpTwgmiedsukKacxz"          # see harness/h_c06.cpp
 UOPS = "UVWY"                      # a continuation of another future returns this SharedFuture and the library flattens it
 ALL = OPS + UOPS
 TERMINAL = "mz"                    # nothing may follow (Get()&& consumes the future, z destroys the copy)
-FULFIL = ["set", "err", "drop", "split", "nofut"]
+FULFIL = ["set", "err", "drop", "split", "nofut", "thrd", "thrs"]   # thrd/thrs: the first Set throws, see h_c06.cpp
 HARNESS = os.path.join(vlib.VERIF, "harness", "h_c06.cpp")
 
 
@@ -64,8 +64,9 @@ def suites(tier, seed):
     s.append(dict(name="E3 1+2 x 1 op (exhaustive)", weak=0, pb=None, mode="dfs", maxexec=3000000,
                   plans=["set/%s" % p for p in e3], exhaustive=True))
     # B: two observers, up to two ops each - preemption-bounded DFS
-    nb = 40 if thorough else 28
+    nb = 44 if thorough else 32
     pl = ["set/i.p", "set/ip.p", "set/k.m", "set/a.p", "set/km.p", "set/i.i", "set/s.k",
+          "thrd/i.p", "thrd/w.k", "thrs/g.a", "thrs/m.U", "thrd/e.r",
           "set/U.p", "set/U.m", "set/W.p", "set/W.m", "set/Y.p", "set/UU.p"]
     while len(pl) < nb:
         f = rng.choice(FULFIL)
@@ -191,6 +192,9 @@ def main(ck):
         "event: it is a copy (the returned handle), an attach of a const-reading callback through that copy, the read, and the "
         "release of the copy by whoever ran the read - the same composition as co_await's awaiter; the harness attaches the outer "
         "step's continuation before the outer source is fulfilled so that the release is followed by that continuation's marker",
+        "a Set whose Store throws (the value's copy constructor throws while the Result is constructed in the state; fulfilment kinds "
+        "thrd / thrs) is no event of Shared.v: nothing is stored, nothing is published, the slot stays Unset; the ~SharedPromise or the "
+        "second Set that follows are the ordinary ESet / EXchg / EDecF events",
         "combinators over a SharedFuture (ops A B L D: WhenAny / WhenAll over the observer's copy and an auxiliary SharedFuture of the "
         "same type, or over two copies of the state) are exercised next to the other observers and judged by the harness oracle "
         "only (coverage.oracle_only_traces): they consume through SharedCore::Retire (move iff GetRef()==1, then DecRef; WhenAll "
@@ -296,7 +300,7 @@ def main(ck):
     ck.cov["distinct_nontrivial"] = nontriv
     ck.cov["traces_with_spurious_cas_failure"] = spurious
     ck.cov["traces_with_real_cas_failure"] = casfail
-    ck.cov["rule"] = ("generated programs: one fulfilling fiber (SharedPromise::Set value / error, ~SharedPromise, a unique Promise through "
+    ck.cov["rule"] = ("generated programs: one fulfilling fiber (SharedPromise::Set value / error, ~SharedPromise, a first Set that throws from the value's copy constructor followed by ~SharedPromise or a second Set, a unique Promise through "
                       "Split, MakeSharedPromise + Split(promise)) and 1-4 observer fibers, each running an op list on its own SharedFuture copy "
                       "(Ready, Ready+Touch const&, Ready+Touch&&, Wait, Get const&, Get&&, ThenInline, Then(e) inline-like and deferred, "
                       "SubscribeInline, Subscribe(e), Share, Connect to a SharedPromise, co_await, copy, copy+destroy, destroy, and a continuation of another "
